@@ -984,20 +984,30 @@ fn group_to_fields(
 ///
 /// See https://github.com/anweiss/cddl/issues/640
 fn deduplicate_field_names(fields: &mut [RustField]) {
-  let mut seen: std::collections::HashMap<String, usize> = std::collections::HashMap::new();
+  let mut used: std::collections::HashSet<String> = std::collections::HashSet::new();
 
   for field in fields.iter_mut() {
-    let base = field.name.clone();
-    let count = seen.entry(base.clone()).or_insert(0);
-    *count += 1;
-
-    if *count > 1 {
-      let unique = format!("{}_{}", base, *count - 1);
-      if field.original_name == base {
-        field.original_name = unique.clone();
-      }
-      field.name = unique;
+    if used.insert(field.name.clone()) {
+      continue;
     }
+
+    // The name is taken: append the first numeric suffix that is free. A
+    // suffixed name can itself be the name of another field (`foo-bar`,
+    // `foo_bar`, `foo_bar_1`), so every candidate is checked as well.
+    let base = field.name.clone();
+    let mut n = 1;
+    let unique = loop {
+      let candidate = format!("{}_{}", base, n);
+      if used.insert(candidate.clone()) {
+        break candidate;
+      }
+      n += 1;
+    };
+
+    if field.original_name == base {
+      field.original_name = unique.clone();
+    }
+    field.name = unique;
   }
 }
 
